@@ -17,7 +17,8 @@ from sim.families.e5_capacity import ROOT, repo_dir, worker_env
 from sim.kernel import Choices, sha
 
 WORKER = os.path.join(ROOT, "sim", "histworker.py")
-TIMEOUT = 1800
+TIMEOUT = 420
+CHUNK_TIMEOUT = 6000
 
 
 CHUNK = 1
@@ -35,10 +36,15 @@ def prepare(params: dict):
 
 
 def execute(spec: dict, compiled: bool) -> Optional[List[dict]]:
-    try:
-        r = subprocess.run([sys.executable, WORKER, repo_dir(), ROOT, json.dumps(spec)], env=worker_env(compiled),
-                           capture_output=True, text=True, timeout=TIMEOUT)
-    except subprocess.TimeoutExpired:
+    r = None
+    for attempt in range(2):  # a history takes seconds; no answer within TIMEOUT twice in a row is a hang
+        try:
+            r = subprocess.run([sys.executable, WORKER, repo_dir(), ROOT, json.dumps(spec)], env=worker_env(compiled),
+                               capture_output=True, text=True, timeout=TIMEOUT)
+            break
+        except subprocess.TimeoutExpired:
+            r = None
+    if r is None:
         return None
     out = []
     for l in r.stdout.splitlines():
@@ -79,8 +85,8 @@ def gen_history(ch: Choices, known: dict):
             reuse = m in used_models and ch.chance(2, 3, "reuse_problem")
             if kind == "find_all":
                 o = {"kind": kind, "model": m, "cfg": cfg, "reuse_problem": reuse}
-                if ch.chance(1, 4, "small_stack"):
-                    o["height"] = 2 + ch.choose(5, "height")  # a capacity error must be the same error in both modes
+                if ch.chance(2, 5, "small_stack"):
+                    o["height"] = 2 + ch.choose(3, "height")  # a capacity error must be the same error in both modes
                 ops.append(o)
                 used_models.add(m)
             elif kind == "new_solver":
